@@ -56,6 +56,21 @@ inline std::string pick_cfg(
 }
 
 inline void common_classes(const Spec& s, Outcome& o) {
+    {
+        // (method, parameter) pairs per class: more than a machine word?
+        for (int c = 0; c < s.n; ++c) {
+            int pairs = 0;
+            for (auto& m : s.meths) {
+                for (int p : m.vp) {
+                    pairs += s.isa(c, p);
+                }
+            }
+            if (pairs > 64) {
+                o.classes.push_back("class_with_65+_vtable_slots");
+                break;
+            }
+        }
+    }
     bool mi = false;
     for (auto& b : s.bases) {
         mi |= b.size() >= 2;
